@@ -632,8 +632,87 @@ def minimise_task(task):
         return {"scenario": ops, "reproduced": False, "tests": tests[0]}
     small = core.ddmin(ops, lambda c: run(c) is not None, max_tests=task["budget"])
     f = run(small)
+    out = {"scenario": small, "reproduced": f is not None, "failure": f, "tests": tests[0]}
+    # shrink the module: drop every type the failing structure cannot reach (one extra build)
+    if f is not None:
+        try:
+            reduced = reduce_module(module, {op["struct"] for op in small if op.get("struct")})
+        except Exception:  # pylint:disable=broad-except
+            reduced = None
+        if reduced is not None and len(reduced.structs) + len(reduced.enums) < len(module.structs) + len(module.enums):
+            wd2 = workdir + "-reduced"
+            b2, _s2, _m2, _w2, _bf2 = build_with_fallback(reduced, list(task["want_features"]), build, wd2)
+            if b2 is not None:
+                full_module, full_binary = module, binary
+                module, binary = reduced, b2
+                f2 = run(small)
+                if f2 is not None:
+                    out.update(failure=f2, tests=tests[0], module_pickle=base64.b64encode(pickle.dumps(reduced)).decode(),
+                               emb="\n".join(f"# ---- {n}\n{t}" for n, t in sorted(D.render_files(reduced).items())))
+                module, binary = full_module, full_binary
+            shutil.rmtree(wd2, ignore_errors=True)
     shutil.rmtree(workdir, ignore_errors=True)
-    return {"scenario": small, "reproduced": f is not None, "failure": f, "tests": tests[0]}
+    return out
+
+
+def reduce_module(module, keep):
+    """A copy of `module` holding only the types reachable from the structures named in `keep`."""
+    import copy
+
+    reach_s, reach_e = set(), set()
+
+    def visit_expr(e):
+        if e is None:
+            return
+        for x in D.walk(e):
+            if isinstance(x, D.EnumConst):
+                reach_e.add(x.enum)
+
+    def visit_struct(name):
+        if name in reach_s:
+            return
+        reach_s.add(name)
+        sd = module.struct(name)
+        if getattr(sd, "parent", None):
+            visit_struct(sd.parent)
+        visit_expr(sd.requires)
+        for _n, k, _b in sd.params:
+            if k not in ("UInt", "Int"):
+                visit_enum(k)
+        for f in sd.fields:
+            for g in [f] + (f.type.members if isinstance(f.type, D.AnonBits) else []):
+                for e in (g.cond, g.expr, g.requires, g.start, g.size):
+                    visit_expr(e)
+                t = g.type
+                if isinstance(t, D.ArrayT):
+                    visit_expr(t.count)
+                    t = t.elem
+                if isinstance(t, D.Scalar) and t.kind == "Enum":
+                    visit_enum(t.enum)
+                if isinstance(t, D.StructRef):
+                    for a in t.args:
+                        visit_expr(a)
+                    visit_struct(t.name)
+
+    def visit_enum(name):
+        reach_e.add(name)
+        e = module.enum(name)
+        if getattr(e, "parent", None):
+            visit_struct(e.parent)
+
+    for k in keep:
+        visit_struct(k)
+    changed = True
+    while changed:  # enums found through expressions may live inside structures
+        before = (len(reach_s), len(reach_e))
+        for en in list(reach_e):
+            visit_enum(en)
+        changed = before != (len(reach_s), len(reach_e))
+    m2 = copy.copy(module)
+    m2.structs = [s for s in module.structs if s.name in reach_s]
+    m2.enums = [e for e in module.enums if e.name in reach_e]
+    m2.mains = [n for n in module.mains if n in reach_s]
+    return m2
 
 
 def replay(args):
@@ -722,7 +801,8 @@ def main(args):
             print(f"HARNESS-NONDETERMINISM property={prop} class={b['failure']['class']} signature={b['failure']['signature']} run={b['failure']['run_index']} {mr.get('note', '')}")
             continue
         body = {"property": prop, "world": "B", "verif_seed": seed, "run_index": b["failure"]["run_index"], "tier": tier,
-                "emb": b["run"]["emb"], "module_pickle": b["run"]["module_pickle"], "build": b["run"]["build"],
+                "emb": mr.get("emb") or b["run"]["emb"], "module_pickle": mr.get("module_pickle") or b["run"]["module_pickle"], "build": b["run"]["build"],
+                "module_reduced": bool(mr.get("module_pickle")),
                 "want_features": list(WANT[prop]), "scenario": mr["scenario"], "failure": mr["failure"],
                 "occurrences_in_this_invocation": b["count"], "ddmin_tests": mr["tests"],
                 "tool_versions": core.tool_versions(),
